@@ -13,47 +13,9 @@ var c10BinOps = []c10Bin{
 	{ADD, symx.WAdd}, {SUB, symx.WSub}, {LT, symx.WLt}, {GT, symx.WGt}, {SLT, symx.WSlt}, {SGT, symx.WSgt}, {EQ, symx.WEq},
 	{AND, symx.WAnd}, {OR, symx.WOr}, {XOR, symx.WXor}, {BYTE, symx.WByte}, {SHL, symx.WShl}, {SHR, symx.WShr}, {SAR, symx.WSar},
 	{SIGNEXTEND, symx.WSignExtend},
-}
-
-var c10DivOps = []c10Bin{{DIV, symx.WDiv}, {MOD, symx.WMod}, {SDIV, symx.WSDiv}, {SMOD, symx.WSMod}}
-
-// c10Narrow: a word whose low n bytes are symbolic and whose upper bytes are all 0x00 or all
-// 0xff (sign pattern chosen symbolically) - the stated reduced-width bound of the DIV family.
-func c10Narrow(name string, n int) symx.W {
-	var w symx.W
-	lo := symx.Bytes(name, n)
-	fill := byte(0)
-	if symx.Choice(name+"neg", 2) == 1 {
-		fill = 0xff
-	}
-	for i := 0; i < 32-n; i++ {
-		w[i] = fill
-	}
-	copy(w[32-n:], lo)
-	return w
-}
-
-// DIV, MOD, SDIV, SMOD: the Knuth kernel (uint256.udivrem) is replaced by its exact semantics
-// (one wide bvudiv/bvurem); what is decided here is everything around it: zero divisor, fast
-// paths, operand order, two's-complement sign handling. Operands: 2 symbolic low bytes
-// (thorough: 4), upper bytes 0x00.. or 0xff.. .
-func verifC10DisabledDivFamily() {
-	k := symx.Choice("op", len(c10DivOps))
-	n := 1
-	if symx.Thorough() {
-		n = 2
-	}
-	a := c10Narrow("a", n)
-	b := c10Narrow("b", n)
-	evm := vfNewEVM(1<<40, nil)
-	ret, _, err := vfRun(evm, vfBinProgram(c10DivOps[k].op, a, b), nil, 1<<30)
-	symx.Check(err == nil, "program runs")
-	symx.Check(len(ret) == 32, "returns one word")
-	if len(ret) == 32 {
-		symx.Check(symx.WEqual(vfWord(ret), c10DivOps[k].ref(a, b)), "result equals specification: "+c10DivOps[k].op.String())
-		symx.Observe("ret", ret)
-	}
-	symx.Reach("end")
+	// heavy kernels of holiman/uint256 (Mul, Div, Mod, SDiv, SMod, Exp) are replaced by their exact
+	// 256-bit semantics: what is decided for these is the opcode glue (operand order, zero cases)
+	{MUL, symx.WMul}, {DIV, symx.WDiv}, {MOD, symx.WMod}, {SDIV, symx.WSDiv}, {SMOD, symx.WSMod}, {EXP, symx.WExp},
 }
 
 // Every two-operand word opcode, run through EVMInterpreter.Run with arbitrary 256-bit
@@ -88,6 +50,29 @@ func VerifC10_UnaryOps() {
 			want = symx.WNot(a)
 		}
 		symx.Check(symx.WEqual(vfWord(ret), want), "result equals specification")
+		symx.Observe("ret", ret)
+	}
+	symx.Reach("end")
+}
+
+
+func VerifC10_TernaryOps() {
+	k := symx.Choice("op", 2)
+	a := vfWord(symx.Bytes("a", 32))
+	b := vfWord(symx.Bytes("b", 32))
+	m := vfWord(symx.Bytes("m", 32))
+	evm := vfNewEVM(1<<40, nil)
+	op := []OpCode{ADDMOD, MULMOD}[k]
+	ret, _, err := vfRun(evm, vfTerProgram(op, a, b, m), nil, 1<<30)
+	symx.Check(err == nil, "program runs")
+	if len(ret) == 32 {
+		var want symx.W
+		if k == 0 {
+			want = symx.WAddMod(a, b, m)
+		} else {
+			want = symx.WMulMod(a, b, m)
+		}
+		symx.Check(symx.WEqual(vfWord(ret), want), "result equals specification: "+op.String())
 		symx.Observe("ret", ret)
 	}
 	symx.Reach("end")
